@@ -81,6 +81,10 @@ CHECKS = {
    text="Generated sequences of SETTINGS frames (all parameters, repeats, unknown ids, boundary/zero/invalid values) interleaved with requests and responses whose header lists and bodies straddle the advertised sizes, against the server (scripted client peer) and against the client (scripted TLS server). Checked: every SETTINGS acknowledged exactly once by the next quiescent point, invalid values end the connection (server: RFC's code), no frame incl. HEADERS/CONTINUATION above the MAX_FRAME_SIZE in force, concurrently open streams within MAX_CONCURRENT_STREAMS, header blocks decodable under a strict decoder sized to HEADER_TABLE_SIZE with lowered sizes announced, the endpoint's own advertised frame size enforced on input, ENABLE_PUSH=0 advertised by the client and PUSH_PROMISE fatal. Exploration only.",
    note="Trusted: strict reference HPACK decoder, scripted peers' ledgers; 'acknowledged in order' is checked as count-at-quiescence (ACK frames carry no identity).",
    ref="6.2 C18"),
+ "C19": dict(technique="property-based workload generation (rapid) under the Go race detector plus a pool-ownership observer; race reports parsed and judged by signature",
+   text="Burst-mode and fault workloads generated by the same rapid generators as the connection-level properties (plus two dedicated burst lanes that change SETTINGS while requests, responses, resets and pings are in flight, in both roles) run in a -race binary, server-role cases on three connections at once to share the process-wide pools. Any race report with a library frame in either access stack is a violation (signature = innermost library frame of each access); the pool observer flags double release, objects handed out while owned, and request contexts recycled while their handler runs. Exploration only: schedules are sampled by repetition and parallelism, not enumerated; a race needing one rare preemption can be missed.",
+   note="Trusted: Go race detector (sound for the schedules that actually occur), pool hook; harness-only race reports are treated as inconclusive, not as findings.",
+   ref="6.2 C19, section 9"),
 }
 PENDING = {}  # id -> reason, for properties not claimed (yet)
 
